@@ -56,11 +56,15 @@ def main(argv=None):
         os.close(fd)
         env = dict(os.environ, VERIF_OPT_PASS_DUMP=path)
         try:
-            r = subprocess.run([sys.executable, "-O", "-B", "-m", "vf.cli", a.check, "--tier", a.tier, "--seed", str(seed)], env=env,
+            # ... and with warnings turned into errors, as under `python -W error` / pytest's filterwarnings=error (ResourceWarning
+            # excepted: it is raised inside finalisers, where it cannot be an error): code that merely wants to WARN then raises
+            werr = [x for c_ in ("DeprecationWarning", "PendingDeprecationWarning", "FutureWarning", "UserWarning", "RuntimeWarning", "SyntaxWarning", "ImportWarning",
+                                 "UnicodeWarning", "BytesWarning", "EncodingWarning") for x in ("-W", f"error::{c_}")]
+            r = subprocess.run([sys.executable, "-O", "-B"] + werr + ["-m", "vf.cli", a.check, "--tier", a.tier, "--seed", str(seed)], env=env,
                                cwd=os.path.dirname(os.path.dirname(os.path.abspath(__file__))), capture_output=True, text=True, timeout=timeout * 2)
             if r.returncode == 0 and os.path.getsize(path) > 0:
                 acc.absorb_file(path)
-                acc.note("a third of the shards ran a second time under python -O (assert statements stripped): the properties hold there as well or the violations are listed above")
+                acc.note("a third of the shards ran a second time under python -O (assert statements stripped) with warnings turned into errors (-W error): the properties hold there as well or the violations are listed above")
             else:
                 acc.inconclusive_because(f"python -O pass failed to run (exit {r.returncode}): {r.stderr[-300:]}")
         except subprocess.TimeoutExpired:
